@@ -53,7 +53,7 @@ def main():
     md = os.path.join(VERIF, 'mutants')
     jobs = []
     for pid in sorted(os.listdir(md)):
-        if ids and pid not in ids:
+        if (ids and pid not in ids) or not os.path.isdir(os.path.join(md, pid)):
             continue
         for name in sorted(os.listdir(os.path.join(md, pid))):
             if only and only not in name:
